@@ -104,7 +104,35 @@ def rule_master(config, comp):
     return min(core_in) if core_in else min(comp)
 
 
-class MasterConvergence(Observer):
+class _FalseFailureWatch:
+    """ Last time a live, reachable peer was declared FAILED by somebody: with a slow network (head-of-line blocking in a
+    proxy queue, ticks delayed beyond inactivity_ticks) the failure detection keeps firing without any injected fault;
+    membership is then still changing and neither convergence nor liveness is claimed at that instant. """
+
+    def _watch_init(self):
+        self._prev_states = {}
+        self.last_failed_us = -10**12
+        self.false_failures = []   # (t_us, observer nick, peer identifier)
+
+    def _watch(self, sim, inst):
+        if not inst.alive or inst.supvisors is None:
+            return
+        key = (inst.nick, inst.incarnation)
+        cur = {i: st.state.name for i, st in inst.supvisors.context.instances.items()}
+        prev = self._prev_states.get(key)
+        self._prev_states[key] = cur
+        if prev is None:
+            return
+        for ident, state in cur.items():
+            # (FAILED and its invalidation to STOPPED / ISOLATED usually happen in one handler)
+            if state in ('FAILED', 'STOPPED', 'ISOLATED') and prev.get(ident) in ('RUNNING', 'CHECKED'):
+                peer = sim.inst_by_identifier(ident)
+                if peer is not None and peer.alive:
+                    self.last_failed_us = sim.now_us
+                    self.false_failures.append((sim.now_us, inst.nick, ident))
+
+
+class MasterConvergence(Observer, _FalseFailureWatch):
     """ C01. Final agreement per component; Master kept; cold-start rule; Master-only automatic requests. """
     prop = 'C01'
 
@@ -120,6 +148,7 @@ class MasterConvergence(Observer):
         self.declared = {}
         self.forced_master = {}
         self.saw_failed = False
+        self._watch_init()
 
     def _probe(self, name):
         self.probes[name] = self.probes.get(name, 0) + 1
@@ -208,6 +237,7 @@ class MasterConvergence(Observer):
                                                    'request': rtype.name, 'body': list(body or ())}, sig)
 
     def after_event(self, sim, inst, kind):
+        self._watch(sim, inst)
         if inst.alive and inst.supvisors is not None and inst.supvisors.state_modes.is_master():
             self.last_self_master[(inst.nick, inst.incarnation)] = (sim.now_us, inst.supvisors.fsm.state.name)
         if inst.alive and inst.supvisors is not None and not self.saw_failed:
@@ -231,6 +261,11 @@ class MasterConvergence(Observer):
         quiet_s = (sim.now_us - self.run.t_faults_end_us) / US
         if quiet_s < self.min_quiet + config['supvisors'].get('synchro_timeout', 15):
             self._probe('short_quiesce_skipped')
+            return
+        if (sim.now_us - self.last_failed_us) / US < 90 and self.last_failed_us > self.run.t_faults_end_us + 60 * US:
+            # a live peer was declared FAILED long after the last injected fault: the network is too slow for the
+            # configured inactivity_ticks, membership is still changing
+            self._probe('membership_still_changing_skipped')
             return
         comps, clean, views = components(sim)
         if not clean:
@@ -384,7 +419,7 @@ def diagnose(sim, comp, views):
     return 'other'
 
 
-class Liveness(Observer):
+class Liveness(Observer, _FalseFailureWatch):
     """ C08: at the end of the quiesce phase every member of a satisfiable component is in its Master's state,
     OPERATION (CONCILIATION with USER and a remaining conflict), no job pending. """
     prop = 'C08'
@@ -393,9 +428,13 @@ class Liveness(Observer):
         super().__init__()
         self.probes = {}
         self.min_quiet = min_quiet
+        self._watch_init()
 
     def _probe(self, name):
         self.probes[name] = self.probes.get(name, 0) + 1
+
+    def after_event(self, sim, inst, kind):
+        self._watch(sim, inst)
 
     def finish(self):
         sim, config = self.sim, self.run.config
@@ -403,6 +442,11 @@ class Liveness(Observer):
             return
         if (sim.now_us - self.run.t_faults_end_us) / US < self.min_quiet + config['supvisors'].get('synchro_timeout', 15):
             self._probe('short_quiesce_skipped')
+            return
+        if (sim.now_us - self.last_failed_us) / US < 90 and self.last_failed_us > self.run.t_faults_end_us + 60 * US:
+            # disturbances have NOT stopped: the failure detection keeps firing on live peers (network slower than the
+            # configured inactivity_ticks allows)
+            self._probe('membership_still_changing_skipped')
             return
         comps, clean, views = components(sim)
         if not clean:
@@ -441,7 +485,21 @@ class Liveness(Observer):
                         conflicts = sim.instances[n].rpcif.get_conflicts()
                     if not (conc_user and conflicts):
                         cause = diagnose(sim, comp, views)
-                        self.violate('parked', dict(detail, inst=n, state=st, conflicts=len(conflicts), cause=cause),
+                        # recorded finding: a conflict that only exists in a stale view (C12 findings): the copy is asked
+                        # to stop (NOT_RUNNING answered, time-out, forced STOPPED) and seen again at the next evaluation
+                        from oracles.agreement import truth
+                        phantom = []
+                        for c in conflicts:
+                            ns = '%s:%s' % (c['application_name'], c['process_name'])
+                            for ident in c['identifiers']:
+                                peer = sim.inst_by_identifier(ident)
+                                if peer is None or not peer.alive or peer.sd is None \
+                                        or truth(peer).get(ns) not in ('STARTING', 'BACKOFF', 'RUNNING', 'STOPPING'):
+                                    phantom.append((ns, ident))
+                        if phantom:
+                            cause = 'conflict-with-a-copy-that-only-exists-in-a-stale-view'
+                        self.violate('parked', dict(detail, inst=n, state=st, conflicts=len(conflicts), cause=cause,
+                                                    phantom=phantom),
                                      'parked:CONCILIATION:%s' % cause)
                         break
                 if jobs:
